@@ -41,9 +41,11 @@ func (s *MapNamespace) GetValue(key string) any {
 // update the value associated with a key and trigger the change notification
 // to the OPC server
 func (s *MapNamespace) SetValue(key string, value any) {
+	// the lock protects Data only: it is released before the notification,
+	// which reads the value back through Attribute
 	s.Mu.Lock()
-	defer s.Mu.Unlock()
 	s.Data[key] = value
+	s.Mu.Unlock()
 	s.ChangeNotification(key)
 }
 
@@ -174,7 +176,9 @@ func (ns *MapNamespace) Attribute(n *ua.NodeID, a ua.AttributeID) *ua.DataValue 
 	var err error
 	if ns.srv.cfg.logger != nil {
 		ns.srv.cfg.logger.Debug("Read req for %s", key)
+		ns.Mu.RLock()
 		ns.srv.cfg.logger.Debug("'%s' Data at read: %v", ns.name, ns.Data)
+		ns.Mu.RUnlock()
 	}
 
 	// because our data is native go types we don't have any of the ua "attributes" attached to it.
@@ -191,7 +195,9 @@ func (ns *MapNamespace) Attribute(n *ua.NodeID, a ua.AttributeID) *ua.DataValue 
 	case ua.AttributeIDValue:
 		dv.Status = ua.StatusOK
 		dv.EncodingMask |= ua.DataValueValue
+		ns.Mu.RLock()
 		v, ok := ns.Data[key]
+		ns.Mu.RUnlock()
 		if !ok {
 			return &ua.DataValue{
 				EncodingMask:    ua.DataValueServerTimestamp | ua.DataValueStatusCode,
@@ -252,7 +258,9 @@ func (ns *MapNamespace) Attribute(n *ua.NodeID, a ua.AttributeID) *ua.DataValue 
 	case ua.AttributeIDDataType:
 		dv.Status = ua.StatusOK
 		dv.EncodingMask |= ua.DataValueValue
+		ns.Mu.RLock()
 		v := ns.Data[key]
+		ns.Mu.RUnlock()
 		switch v.(type) {
 		case string:
 			dv.Value, err = ua.NewVariant(ua.NewNumericNodeID(0, 12))
@@ -337,8 +345,9 @@ func (ns *MapNamespace) Attribute(n *ua.NodeID, a ua.AttributeID) *ua.DataValue 
 
 func (s *MapNamespace) SetAttribute(node *ua.NodeID, attr ua.AttributeID, val *ua.DataValue) ua.StatusCode {
 
+	// the lock protects Data only: it is released before the notification,
+	// which reads the value back through Attribute
 	s.Mu.Lock()
-	defer s.Mu.Unlock()
 	if s.srv.cfg.logger != nil {
 		s.srv.cfg.logger.Debug("'%s' Data pre-write: %v", s.name, s.Data)
 	}
@@ -351,6 +360,7 @@ func (s *MapNamespace) SetAttribute(node *ua.NodeID, attr ua.AttributeID, val *u
 		v := val.Value.Value()
 		s.Data[key] = v
 	}
+	s.Mu.Unlock()
 
 	// notify the opc ua server the value has changed.
 	s.srv.ChangeNotification(node)
